@@ -200,6 +200,8 @@ def run_merge(ctx, bindir, cases_path, tier, seed):
 
 
 def describe_case(m):
+    if m["kind"] == "codec":
+        return "base %s, slot %s, %s: %s" % (m["base"], m["detail"].get("slot"), m["detail"].get("memo"), m["detail"].get("what"))
     ps = m["case"]["ps"]
 
     def party(p):
@@ -220,7 +222,8 @@ def report_merge(ctx, mismatches, cap=3):
     for m in mismatches[:cap]:
         lib.violation(ctx, {"property": "C13", "kind": m["kind"], "base": m["base"], "case": m["case"], "binding": m["binding"],
                             "idx": m["idx"], "trees": m["trees"], "seed": m["seed"], "tier": m["tier"], "detail": m["detail"]},
-                      "Combiner::combine disagrees with PcztLattice.Merge: " + describe_case(m))
+                      ("Pczt::parse / serialize break the encoding's acceptance boundary: " if m["kind"] == "codec"
+                       else "Combiner::combine disagrees with PcztLattice.Merge: ") + describe_case(m))
 
 
 # ------------------------------------------------------------------------------------------------
@@ -312,12 +315,15 @@ def trace_classes(recs):
             hit("encoding:%d->%d" % (r["pre"]["enc"], r["post"]["enc"]))
         if r["a"] == "extract":
             hit("extract:ok")
+        for n in r["post"].get("mlens", []):
+            hit("memo:%d" % n)
         for w in r["ch"]:
             hit("write:%s:%s" % (w["c"], w["d"]))
     need = ["role:" + a for a in ("io_finalize", "update", "sign_t", "sign_s", "redact", "compact", "resolve", "verify", "finalize",
                                   "combine", "reparse", "set_anchor", "set_witness", "extract")] + \
            ["combine:conflict", "combine:adds", "combine:flags-change", "sign_t:flags-change", "encoding:1->2", "encoding:2->1", "extract:ok"] + \
-           ["sign_t:ht=%d" % h for h in (1, 2, 3, 0x81, 0x82, 0x83)]
+           ["sign_t:ht=%d" % h for h in (1, 2, 3, 0x81, 0x82, 0x83)] + \
+           ["memo:%d" % n for n in (0, 1, 511, 512)]        # memo plaintext form at the length boundaries
     return c, [k for k in need if not c.get(k)]
 
 
@@ -429,7 +435,7 @@ def replay(ctx, path):
     with open(path) as f:
         rep = json.load(f)
     kind = rep.get("kind")
-    if kind in ("merge", "merge_roles"):
+    if kind in ("merge", "merge_roles", "codec"):
         p = lib.run_bin(os.path.join(bindir, "c13_replay"), ["rerun", path], timeout=600)
         out = json.loads(p.stdout.strip().splitlines()[-1])
         if out["mismatch"]:
